@@ -7,6 +7,7 @@ import (
 	"os"
 	"strconv"
 
+	"verif/internal/c20gen"
 	"verif/internal/mon"
 	_ "verif/internal/props"
 )
@@ -50,6 +51,15 @@ func main() {
 			os.Exit(3)
 		}
 		os.Exit(mon.RunRange(p, *tier, *seed, *from, *to, *journal, *out, *verbose))
+	case "c20gen":
+		if len(os.Args) < 4 {
+			os.Exit(2)
+		}
+		if err := c20gen.Generate(os.Args[2], os.Args[3]); err != nil {
+			fmt.Println("c20gen:", err)
+			os.Exit(2)
+		}
+		os.Exit(0)
 	case "replay":
 		if len(os.Args) < 3 {
 			os.Exit(2)
